@@ -169,8 +169,8 @@ func TestVerifC16LogBigRace(t *testing.T) {
 			wg.Wait()
 			rep.Eval()
 			// ---- oracle for the round
-			winnersAt := map[int64][]int{}  // named offset -> successful appenders
-			assigned := map[int64][]int{}   // assigned offset -> appenders
+			winnersAt := map[int64][]int{} // named offset -> successful appenders
+			assigned := map[int64][]int{}  // assigned offset -> appenders
 			namedNext, wonNext, succ := 0, 0, 0
 			classes := map[string]bool{}
 			for _, r := range res {
